@@ -4,6 +4,7 @@ pub mod c03;
 pub mod c08;
 pub mod c15;
 pub mod c16;
+pub mod c17;
 pub mod c19;
 pub mod c04;
 pub mod c05;
@@ -37,6 +38,7 @@ pub fn dispatch(args: &Args, rep: &Arc<Report>) -> bool {
         "c12" => c12::run(args, rep),
         "c13" => c13::run(args, rep),
         "c16" => c16::run(args, rep),
+        "c17" => c17::run(args, rep),
         "c19" => c19::run(args, rep),
         "dump" => dump(args),
         _ => return false,
